@@ -91,19 +91,31 @@ def _non_instances(value: Value, pattern_value: Value) -> Optional[Value]:
     """The part of value, which is assignable to pattern_value, that still fails
     isinstance(): a float may be an int at runtime, and an int is never a float."""
     inner = unannotate(value)
+    # issubclass(): the pattern is type[...] and the value is a class
+    is_class = any(
+        isinstance(subval, SubclassValue)
+        for subval in flatten_values(pattern_value, unwrap_annotated=True)
+    )
+    if is_class and isinstance(inner, SubclassValue):
+        inner = inner.typ
     if isinstance(inner, KnownValue):
-        typ = type(inner.val)
+        typ = inner.val if is_class else type(inner.val)
+        if not isinstance(typ, type):
+            return None
         candidates = [typ]
     elif isinstance(inner, TypedValue) and isinstance(inner.typ, type):
         typ = inner.typ
         candidates = [typ, *_PROMOTED_TYPES.get(typ, ())]
     else:
         return None
-    pattern_types = [
-        subval.typ
-        for subval in flatten_values(pattern_value, unwrap_annotated=True)
-        if isinstance(subval, TypedValue) and isinstance(subval.typ, type)
-    ]
+    pattern_types = []
+    for subval in flatten_values(pattern_value, unwrap_annotated=True):
+        if is_class:
+            if not isinstance(subval, SubclassValue):
+                continue
+            subval = subval.typ
+        if isinstance(subval, TypedValue) and isinstance(subval.typ, type):
+            pattern_types.append(subval.typ)
     remaining = [
         candidate
         for candidate in candidates
@@ -113,6 +125,10 @@ def _non_instances(value: Value, pattern_value: Value) -> Optional[Value]:
         return None
     if remaining == [typ]:
         return value
+    if is_class:
+        return unite_values(
+            *[SubclassValue(TypedValue(candidate)) for candidate in remaining]
+        )
     return unite_values(*[TypedValue(candidate) for candidate in remaining])
 
 
